@@ -541,6 +541,9 @@ func (f *Frame) evalUnary(st *State, x *ast.UnaryExpr) Val {
 		// callee write-back logic when passed directly as an argument (see evalCall).
 		inner := x.X
 		if cl, ok := ast.Unparen(inner).(*ast.CompositeLit); ok {
+			if isBigInt(f.typeOf(cl)) {
+				return f.bigAlloc(st, "0")
+			}
 			v := f.evalCompositeLit(st, cl)
 			return f.mkPtr(v)
 		}
